@@ -152,7 +152,7 @@ pub fn spec(id: &str) -> Option<HistorySpec> {
                 thorough_cases: 40_000,
                 thorough_max_ops: 300,
                 termination: true,
-                rule: "part (i): every operation of the history engine including all three descriptors under every config; a call is declared non-returning only if neither the filesystem nor any hook point moved for 20 s (2 s once a database thread is known to have panicked); any panic on a raindb-* thread of an open database or in a public call is a violation. Non-trivial = the case reached a memtable-full wait, the L0 slowdown or stop trigger, or the Stats descriptor; distinct by case hash",
+                rule: "part (i): every operation of the history engine including all three descriptors under every config; part (ii)/(iii): 1-4 threads of 20-70 generated ops each (puts of 58-308 B, batches, deletes, gets, scans, flushes, compact_range(all)) on a 512/700 byte memtable with 400 byte files so that the memtable-full wait, the L0 slowdown and the L0 stop are reached, the database being dropped as soon as the threads finish, i.e. while background work is pending; part (iv): a sample of single-fault runs (C08's engine) judged for termination only. A call is declared non-returning only if neither the filesystem nor any hook point moved for 20 s (2 s once a database thread is known to have panicked); any panic on a raindb-* thread of an open database or in a public call is a violation. Non-trivial = the case reached a memtable-full wait, the L0 slowdown or stop trigger, or the Stats descriptor (part iv: the armed run completed); distinct by case hash",
             })
         }
         _ => None,
